@@ -86,9 +86,12 @@ fn ppolys(v: &[P]) -> String { v.iter().map(ppoly).collect::<Vec<_>>().join("|")
 #[derive(Clone)]
 enum Resp {
     Ok(Vec<u8>),
-    ErrBefore,
-    ErrAfter(Vec<u8>),
+    ErrBefore(u32),
+    ErrAfter(Vec<u8>, u32),
 }
+// default error code of a scripted failure: a custom (non-OS) code; `errbefore@11` / `errafter@4:<hex>` give the raw code,
+// so that codes that look like OS errors (EINTR, EAGAIN, ...) can be scripted too
+const DEFAULT_CODE: u32 = rand_core::Error::CUSTOM_START + 7;
 struct ScriptRng {
     script: Vec<Resp>,
     pos: usize,
@@ -103,9 +106,14 @@ fn parse_script(s: &str) -> Vec<Resp> {
             if let Some(h) = t.strip_prefix("ok:") {
                 Resp::Ok(hex(h))
             } else if t == "errbefore" {
-                Resp::ErrBefore
+                Resp::ErrBefore(DEFAULT_CODE)
+            } else if let Some(c) = t.strip_prefix("errbefore@") {
+                Resp::ErrBefore(c.parse().expect("bad error code"))
             } else if let Some(h) = t.strip_prefix("errafter:") {
-                Resp::ErrAfter(hex(h))
+                Resp::ErrAfter(hex(h), DEFAULT_CODE)
+            } else if let Some(x) = t.strip_prefix("errafter@") {
+                let (c, h) = x.split_once(':').expect("bad errafter@");
+                Resp::ErrAfter(hex(h), c.parse().expect("bad error code"))
             } else {
                 panic!("bad rng script")
             }
@@ -139,7 +147,8 @@ impl rand_core::RngCore for ScriptRng {
         self.log.push(format!("tryfill{}", dest.len()));
         let r = self.script.get(self.pos).cloned();
         self.pos += 1;
-        let fail = || rand_core::Error::from(core::num::NonZeroU32::new(rand_core::Error::CUSTOM_START + 7).unwrap());
+        let fail_with = |c: u32| rand_core::Error::from(core::num::NonZeroU32::new(c).unwrap_or(core::num::NonZeroU32::new(DEFAULT_CODE).unwrap()));
+        let fail = || fail_with(DEFAULT_CODE);
         match r {
             Some(Resp::Ok(b)) => {
                 // a well-behaved generator fills the whole buffer; bytes repeat cyclically if short
@@ -151,15 +160,16 @@ impl rand_core::RngCore for ScriptRng {
                 }
                 Ok(())
             }
-            Some(Resp::ErrAfter(b)) => {
+            Some(Resp::ErrAfter(b, c)) => {
                 for (i, d) in dest.iter_mut().enumerate() {
                     if i < b.len() {
                         *d = b[i];
                     }
                 }
-                Err(fail())
+                Err(fail_with(c))
             }
-            Some(Resp::ErrBefore) | None => Err(fail()),
+            Some(Resp::ErrBefore(c)) => Err(fail_with(c)),
+            None => Err(fail()),
         }
     }
 }
